@@ -40,6 +40,13 @@ pub fn category_types() -> Vec<(&'static str, Ty)> {
 const DIRS: [Option<&str>; 4] = [None, Some("in"), Some("out"), Some("inout")];
 
 pub fn support() -> Vec<ProjFile> {
+    support_rot(false)
+}
+
+/// `rot`: the same keys with rotated kinds (t.Itf a parcelable, t.Par an enum, t.En an interface)
+/// - the category of a name is a fact of the project at hand, not of the name: anything that
+/// remembers "t.Par is a parcelable" from an earlier project, parser or call is wrong here
+pub fn support_rot(rot: bool) -> Vec<ProjFile> {
     // a "mirror" file uses the same simple names for items of other kinds (imports and
     // forward declarations are per file: nothing of it may leak into the observed file)
     let mut mirror = Item::new(ItemKind::Interface, "Mirror");
@@ -72,9 +79,9 @@ pub fn support() -> Vec<ProjFile> {
     }
     md.decls.push(Decl::new("Unk"));
     vec![
-        ProjFile::from_doc("itf", Document::new("t", Item::new(ItemKind::Interface, "Itf"))),
-        ProjFile::from_doc("par", Document::new("t", Item::new(ItemKind::Parcelable, "Par"))),
-        ProjFile::from_doc("en", Document::new("t", Item::new(ItemKind::Enum, "En"))),
+        ProjFile::from_doc("itf", Document::new("t", Item::new(if rot { ItemKind::Parcelable } else { ItemKind::Interface }, "Itf"))),
+        ProjFile::from_doc("par", Document::new("t", Item::new(if rot { ItemKind::Enum } else { ItemKind::Parcelable }, "Par"))),
+        ProjFile::from_doc("en", Document::new("t", Item::new(if rot { ItemKind::Interface } else { ItemKind::Enum }, "En"))),
         ProjFile::from_doc("z-itf", Document::new("z", Item::new(ItemKind::Parcelable, "Itf"))),
         ProjFile::from_doc("z-par", Document::new("z", Item::new(ItemKind::Enum, "Par"))),
         ProjFile::from_doc("z-en", Document::new("z", Item::new(ItemKind::Interface, "En"))),
@@ -148,7 +155,7 @@ fn make_case(arg_lists: &[Vec<usize>], iface_oneway: bool, method_oneway_mask: u
         }
         item.members.push(Member::Method(m));
     }
-    let mut files = support();
+    let mut files = support_rot(method_oneway_mask == 0xaaaa);
     let mut header = observed_header(item);
     if const_at == Some(2) {
         // data values: project items, an unknown import and a forward declaration that are
